@@ -1,6 +1,6 @@
 (* C18 - rate limits bound admitted messages per window and do not over-block.
    Property theorems only; proofs are in C18/Proofs.v. *)
-From NR Require Import Lib.Base C18.Model C18.Spec C18.Proofs.
+From NR Require Import Lib.Base C18.Model C18.Spec C18.Proofs C18.Lift.
 Open Scope Z_scope.
 
 (* Tie between the code's deque (trimmed, cleared) and the sliding-window log:
@@ -12,6 +12,14 @@ Theorem C18_refines : forall rules ts log last t,
   Rel rules (snd (deque_step rules ts t)) (snd (spec_step rules log t)) t.
 Proof. exact deque_step_refines. Qed.
 Print Assumptions C18_refines.
+
+(* The same for RateLimiter.is_limited as a whole (address-specific rules first and alone, otherwise global
+   then ip): over every configuration and every arrival sequence with a non-decreasing clock whose
+   addresses are not literally "global"/"ip", the model's verdicts are the specification's. *)
+Theorem C18_limiter_refines_spec : forall cfg arr,
+  times_ok 0 arr -> fst (run cfg [] arr) = fst (spec_run cfg [] arr).
+Proof. exact limiter_refines_spec. Qed.
+Print Assumptions C18_limiter_refines_spec.
 
 (* never more than n let through in any window of the rule's length *)
 Theorem C18_window : forall rules log t,
